@@ -278,6 +278,15 @@ class Goebner:
         nonnegative = None
         if agg.ast_type == ASTType.BodyAggregate and agg.function == AggregateFunction.SumPlus:
             nonnegative = True
+            # scaling or merging the aggregate turns it into a #sum, which does not skip negative weights
+            for elem in agg.elements:
+                if not (
+                    elem.terms
+                    and elem.terms[0].ast_type == ASTType.SymbolicTerm
+                    and elem.terms[0].symbol.type == clingo.SymbolType.Number
+                    and elem.terms[0].symbol.number >= 0
+                ):
+                    return None
         dummy = Dummy(f"agg{agg.location.begin.column}", integer=True, nonnegative=nonnegative)
         op: ComparisonOperator = negate_comparison(agg.left_guard.comparison) if neg else agg.left_guard.comparison
         lhs = self._to_sympy_term(agg.left_guard.term)
@@ -389,6 +398,9 @@ class Goebner:
                 newterms = list(newelem.terms)
                 newterms[0] = BinaryOperation(LOC, BinaryOperator.Multiplication, newterms[0], factor)
                 newelements.append(newelem.update(terms=newterms))
+            if collector.function == AggregateFunction.SumPlus:
+                # the weights are non negative numbers (see _to_sympy_bodyaggregate), the factor may be negative
+                return collector.update(elements=newelements, function=AggregateFunction.Sum)
             return collector.update(elements=newelements)
 
         collector = asts[0]
